@@ -240,7 +240,9 @@ class Trialer:
         sig = "C13:%s:%s" % (self.op["op"], "file" if self.user_file else "cache")
         where = "%s:%s:%s->%s" % site if site else label
         # 1 propagation
-        if err_or_none is None:
+        if isinstance(err_or_none, simpool.PoolWouldHang):
+            v.append(Violation(PROPERTY, "C13.propagation", sig + ":worker-exception-cannot-be-rebuilt-in-parent:pool-would-hang", "fault %s: %s" % (label, str(err_or_none)[:400])))
+        elif err_or_none is None:
             v.append(Violation(PROPERTY, "C13.propagation", sig + ":fault-swallowed:" + (site[1] + "->" + site[3] if site else label), "fault %s at %s did not reach the caller (returned %s)" % (label, where, str(capture(returned))[:120])))
         elif not in_chain(err_or_none, injected, marker):
             v.append(Violation(PROPERTY, "C13.propagation", sig + ":fault-replaced-by-unrelated-exception:" + (site[1] + "->" + site[3] if site else label), "fault %s at %s surfaced as %s without the injected error on its chain" % (label, where, exc_chain(err_or_none))))
